@@ -12,6 +12,8 @@ EV=/tmp/ev/$N
 mkdir -p $DST /tmp/ev
 cp $SRC/patch.diff $DST/ 2>/dev/null
 for f in $SRC/demo*.py $SRC/meta.json; do [ -f "$f" ] && cp "$f" $DST/; done
+RET=$(python3 -c "import json;print(json.load(open('$DST/meta.json')).get('retired',''))" 2>/dev/null)
+[ -n "$RET" ] && { echo "RETIRED: $RET"; exit 0; }
 git -C /repo worktree remove --force $EV 2>/dev/null
 git -C /repo worktree add -q --detach $EV HEAD || exit 2
 DEMO=$(ls $DST/demo*.py | head -1)
